@@ -99,6 +99,9 @@ func btpCases() []btpCase {
 		// DFT splits
 		{"C2S-depth>LogSlots", func(r *R, b *B) { b.CoeffsToSlotsFactorizationDepthAndLogScales = [][]int{{56}, {56}, {56}, {56}} }, true},
 		{"S2C-depth>LogSlots", func(r *R, b *B) { b.SlotsToCoeffsFactorizationDepthAndLogScales = [][]int{{39}, {39}, {39}, {39}} }, true},
+		{"S2C-empty", func(r *R, b *B) { b.SlotsToCoeffsFactorizationDepthAndLogScales = [][]int{} }, false},
+		{"S2C-empty-level", func(r *R, b *B) { b.SlotsToCoeffsFactorizationDepthAndLogScales = [][]int{{}, {39}} }, false},
+		{"S2C-scale-0", func(r *R, b *B) { b.SlotsToCoeffsFactorizationDepthAndLogScales = [][]int{{0}} }, false},
 		{"C2S-empty", func(r *R, b *B) { b.CoeffsToSlotsFactorizationDepthAndLogScales = [][]int{} }, false},
 		{"C2S-empty-level", func(r *R, b *B) { b.CoeffsToSlotsFactorizationDepthAndLogScales = [][]int{{}, {56}} }, false},
 		{"C2S-scale-0", func(r *R, b *B) { b.CoeffsToSlotsFactorizationDepthAndLogScales = [][]int{{0}} }, false},
